@@ -419,7 +419,7 @@ Definition lift_multi_byte (pre : option N) (op1 op2 : logop) (clear_carry rever
                 (if negb (w =? 1)%N then fail else
                  if subtract then bcd_sub_emul (h_load h1) (h_load h2) else bcd_add_emul (h_load h1) (h_load h2))
               else
-                let term := add w (h_load h2) (EFlag true) in
+                let term := add 3 (h_load h2) (EFlag true) in
                 let main := EBin (if subtract then B_SUB else B_ADD) w FCZ (h_load h1) term in
                 emit (SSetReg w (T 12) main) ;;;
                 ret (EReg w (T 12))) ;;
@@ -442,10 +442,10 @@ Definition is_imem (o : logop) : bool := match o with LIMem _ _ => true | _ => f
 Definition predec_reg (o : logop) : option (reg * N) :=
   match o with LEPtr _ (PB_IncDec r rw EM_PRE_DEC _) _ => Some (r, rw) | _ => None end.
 
-Definition lift_mvl (pre : option N) (dst src : logop) (decr : bool) : M unit :=
+Definition lift_mvl (modes : option (imode * imode)) (dst src : logop) (decr : bool) : M unit :=
   if negb (is_pointer dst && is_pointer src) then fail else
-  match mode_of pre false, mode_of pre true with
-  | Some dm, Some sm =>
+  match modes with
+  | Some (dm, sm) =>
       da <- cur_addr dst dm false ;;
       emit (SSetReg 3 (T 3) da) ;;;
       initial <- cur_addr src sm false ;;
@@ -473,7 +473,7 @@ Definition lift_mvl (pre : option N) (dst src : logop) (decr : bool) : M unit :=
        end) ;;;
       _ <- cur_addr dst dm true ;;
       loop_end ls
-  | _, _ => fail
+  | None => fail
   end.
 
 Definition lift_decimal_shift (pre : option N) (o : logop) (lft : bool) : M unit :=
@@ -537,9 +537,9 @@ Definition operation2 (cls : icls) (w : N) (a b : expr) : option expr :=
   match cls with
   | I_MV => Some b
   | I_ADD => Some (EBin B_ADD w FCZ a b)
-  | I_ADC => Some (EBin B_ADD w FCZ a (add w b (EFlag true)))
+  | I_ADC => Some (EBin B_ADD w FCZ a (add 3 b (EFlag true)))
   | I_SUB => Some (EBin B_SUB w FCZ a b)
-  | I_SBC => Some (EBin B_SUB w FCZ a (add w b (EFlag true)))
+  | I_SBC => Some (EBin B_SUB w FCZ a (add 3 b (EFlag true)))
   | I_AND => Some (EBin B_AND 1 FZ a b)
   | I_OR => Some (EBin B_OR 1 FZ a b)
   | I_XOR => Some (EBin B_XOR 1 FZ a b)
@@ -590,17 +590,17 @@ Definition cond_jump (cnd : option cond) (target : M expr) : M unit :=
   emit (SJump t) ;;;
   emit (SLabel lf).
 
-Definition single_exchange (lops : list logop) : M unit :=
+Definition single_exchange (i : instr) (lops : list logop) : M unit :=
   match lops with
   | [o1; o2] =>
-      match lop_width o1 with
-      | Some w =>
-          a <- op_lift o1 IM_BP_N true ;;
+      match lop_width o1, addressing_modes i lops with
+      | Some w, Some (dm, sm) =>
+          a <- op_lift o1 dm true ;;
           emit (SSetReg w (T 6) a) ;;;
-          b <- op_lift o2 IM_BP_N true ;;
-          op_assign o1 b IM_BP_N ;;;
-          op_assign o2 (EReg w (T 6)) IM_BP_N
-      | None => fail
+          b <- op_lift o2 sm true ;;
+          op_assign o1 b dm ;;;
+          op_assign o2 (EReg w (T 6)) sm
+      | _, _ => fail
       end
   | _ => fail
   end.
@@ -629,11 +629,11 @@ Definition lift_body (i : instr) (addr : Z) : M unit :=
           cond_jump (d_cond e)
             (match lops with
              | [o] =>
-                 match lop_width o with
-                 | Some w =>
-                     v <- op_lift o IM_BP_N true ;;
-                     ret (if (3 <=? w)%N then v else or_ 3 v (c 3 (Z.land addr 16711680)))
-                 | None => fail
+                 match lop_width o, addressing_modes i lops with
+                 | Some w, Some (dm, _) =>
+                     if (3 <=? w)%N then op_lift o dm true
+                     else v <- op_lift o IM_BP_N true ;; ret (or_ 3 v (c 3 (Z.land addr 16711680)))
+                 | _, _ => fail
                  end
              | _ => fail
              end)
@@ -668,8 +668,8 @@ Definition lift_body (i : instr) (addr : Z) : M unit :=
               end
           | _ => lift_generic i lops
           end
-      | I_MVL => match lops with [d; s] => lift_mvl (i_pre i) d s false | _ => fail end
-      | I_MVLD => match lops with [d; s] => lift_mvl (i_pre i) d s true | _ => fail end
+      | I_MVL => match lops with [d; s] => lift_mvl (addressing_modes i lops) d s false | _ => fail end
+      | I_MVLD => match lops with [d; s] => lift_mvl (addressing_modes i lops) d s true | _ => fail end
       | I_PRE => fail                                        (* InvalidInstruction: unfused PRE *)
       | I_PUSHS =>
           match lops with
@@ -752,8 +752,8 @@ Definition lift_body (i : instr) (addr : Z) : M unit :=
               end
           | _ => fail
           end
-      | I_EX => single_exchange lops
-      | I_EXL => ls <- loop_begin ;; single_exchange lops ;;; loop_end ls
+      | I_EX => single_exchange i lops
+      | I_EXL => ls <- loop_begin ;; single_exchange i lops ;;; loop_end ls
       | I_WAIT => ls <- loop_begin ;; emit SNop ;;; loop_end ls
       | I_SC => emit (SSetFlag true (c 1 1))
       | I_RC => emit (SSetFlag true (c 1 0))
